@@ -99,6 +99,9 @@ Ltac core_inj H := unfold core in H; injection H as ? ? ?.
 Lemma core_some_eq s s0 : Some (core s) = Some (core s0) ->
   s_room s = s_room s0 /\ s_kind s = s_kind s0 /\ s_conn s = s_conn s0.
 Proof. unfold core. intros H. inversion H. auto. Qed.
+Lemma core_some_eq' s s0 : core s = core s0 ->
+  s_room s = s_room s0 /\ s_kind s = s_kind s0 /\ s_conn s = s_conn s0.
+Proof. unfold core. intros H. inversion H. auto. Qed.
 
 Lemma wf_equiv xr xp h h' : equiv h h' -> WFg xr xp h -> WFg xr xp h'.
 Proof.
@@ -1282,4 +1285,221 @@ Proof.
       destruct rep as [perms su|code].
       * destruct (join_room h1 c sid k rsv perms su) as [h2 o2] eqn:H2. cbn [fst]. rewrite (fst_eq _ _ _ H2). now apply wf_join_room.
       * destruct (send_session h1 sid (SError code)) as [h2 o2] eqn:H2. cbn [fst]. rewrite (fst_eq _ _ _ H2). now apply wf_send_session.
+Qed.
+
+(* ------------------------------------------------------------------ room records *)
+Lemma wf_room_update xr xp h k r r' :
+  WFg xr xp h -> room_of h k = Some r -> r_members r' = r_members r ->
+  (forall m, In m (r_incall r') -> In m (r_members r)) ->
+  WFg xr xp (set_rooms h (pset (h_rooms h) k r')).
+Proof.
+  intros W Hr Hm Hi.
+  assert (Hroom : forall k', room_of (set_rooms h (pset (h_rooms h) k r')) k' = if pair_eqb k' k then Some r' else room_of h k').
+  { intros k'. unfold room_of. hsimpl. apply pget_pset. }
+  constructor; try apply W.
+  - intros k' r0 m. rewrite Hroom. destruct (pair_eqb_spec k' k) as [->|]; [|apply (wf_members _ _ h W)].
+    intros H. injection H as <-. rewrite Hm. apply (wf_members _ _ h W k r m Hr).
+  - intros k' r0. rewrite Hroom. destruct (pair_eqb_spec k' k) as [->|]; [|apply (wf_nonempty _ _ h W)].
+    intros H. injection H as <-. rewrite Hm. apply (wf_nonempty _ _ h W k r Hr).
+  - intros k' r0 m. rewrite Hroom. destruct (pair_eqb_spec k' k) as [->|]; [|apply (wf_incall _ _ h W)].
+    intros H. injection H as <-. rewrite Hm. apply Hi.
+  - intros x sx k' Hx Hk. destruct (wf_room _ _ h W x sx k' Hx Hk) as [?|[r0 [Hr0 Hm0]]]; [now left|right].
+    rewrite Hroom. destruct (pair_eqb_spec k' k) as [->|]; [|eauto]. exists r'. split; [reflexivity|]. rewrite Hm. congruence.
+Qed.
+
+Lemma wf_set_incall xr xp h k sid on : WFg xr xp h -> WFg xr xp (set_incall h k sid on).
+Proof.
+  intros W. unfold set_incall. destruct (room_of h k) as [r|] eqn:Hr; [|exact W].
+  destruct (on && negb (nmem sid (r_members r))) eqn:Hc; [exact W|].
+  apply (wf_room_update _ _ h k r); auto. cbn [r_incall]. intros m Hm. destruct on.
+  - apply in_nadd in Hm as [->|Hm]; [|eapply wf_incall; eauto].
+    cbn in Hc. apply negb_false_iff in Hc. now apply nmem_In.
+  - eapply wf_incall; eauto. eapply in_nrem; eauto.
+Qed.
+
+(* messages and events *)
+Lemma wf_do_message xr h sid s kindn to tag cb : WFg xr none1 h -> WFg xr none1 (fst (do_message h sid s kindn to tag cb)).
+Proof.
+  intros W. unfold do_message.
+  destruct to as [i|u| |].
+  - destruct i as [n|n|k|n]; try (cbn [fst]; eapply wf_equiv; [apply equiv_publish|exact W]).
+    destruct (get_sess h n) as [t|]; [|cbn [fst]; eapply wf_equiv; [apply equiv_publish|exact W]].
+    destruct (cb && negb (N.eqb (s_backend t) (s_backend s))); [exact W|].
+    destruct (N.eqb n sid); [exact W|].
+    destruct (s_kind t); now apply wf_send_session.
+  - destruct (N.eqb u 0); [exact W|]. destruct (N.eqb u (sess_userid h sid s)); [exact W|].
+    cbn [fst]. eapply wf_equiv; [apply equiv_publish|exact W].
+  - destruct (s_room s); [|exact W]. cbn [fst]. eapply wf_equiv; [apply equiv_publish|exact W].
+  - destruct (s_room s); [|exact W]. cbn [fst]. eapply wf_equiv; [apply equiv_publish|exact W].
+Qed.
+
+Lemma wf_recv_event xr h sid m sender co re t : WFg xr none1 h -> WFg xr none1 (fst (recv_event h sid m sender co re t)).
+Proof.
+  intros W. unfold recv_event. destruct (get_sess h sid) as [s|]; [|exact W].
+  destruct (N.eqb sender sid && negb (N.eqb sender 0)); [exact W|].
+  destruct (co && negb (in_call h sid s)); [exact W|].
+  match goal with |- context [if ?c then _ else _] => destruct c end; [exact W|]. now apply wf_send_session.
+Qed.
+
+(* deleting a room whose members still name it *)
+Definition or_room (xr : N * N -> Prop) (k : N * N) : N * N -> Prop := fun k' => xr k' \/ k' = k.
+
+Lemma wf_del_room xr xp h k : WFg xr xp h -> WFg (or_room xr k) xp (set_rooms h (pdel (h_rooms h) k)).
+Proof.
+  intros W.
+  assert (Hroom : forall k', room_of (set_rooms h (pdel (h_rooms h) k)) k' = if pair_eqb k' k then None else room_of h k').
+  { intros k'. unfold room_of. hsimpl. apply pget_pdel. }
+  constructor; try apply W.
+  - intros k' r m. rewrite Hroom. destruct (pair_eqb_spec k' k); [discriminate|apply (wf_members _ _ h W)].
+  - intros k' r. rewrite Hroom. destruct (pair_eqb_spec k' k); [discriminate|apply (wf_nonempty _ _ h W)].
+  - intros k' r m. rewrite Hroom. destruct (pair_eqb_spec k' k); [discriminate|apply (wf_incall _ _ h W)].
+  - intros x sx k' Hx Hk. destruct (wf_room _ _ h W x sx k' Hx Hk) as [?|[r0 [Hr0 Hm0]]]; [left; now left|].
+    rewrite Hroom. destruct (pair_eqb_spec k' k) as [->|]; [left; now right|right; eauto].
+Qed.
+
+Lemma wf_drop_room_exception xr xp h k :
+  WFg (or_room xr k) xp h -> (forall x s, get_sess h x = Some s -> s_room s <> Some k) -> WFg xr xp h.
+Proof.
+  intros W Hno. constructor; try apply W.
+  intros x sx k' Hx Hk. destruct (wf_room _ _ h W x sx k' Hx Hk) as [[Ha|Hb]|Hc]; auto. subst k'. exfalso. eapply Hno; eauto.
+Qed.
+
+(* ------------------------------------------------------------------ room deletion *)
+Lemma leave_room_keeps_missing h sid notify k :
+  room_of h k = None -> room_of (fst (leave_room h sid notify)) k = None.
+Proof.
+  intros Hk. unfold leave_room. destruct (get_sess h sid) as [s|] eqn:Hs; [|exact Hk].
+  destruct (s_room s) as [k'|] eqn:Hk'; [|exact Hk].
+  assert (Hgen : forall hX, h_rooms hX = h_rooms h -> room_of (room_remove hX k' sid) k = None).
+  { intros hX HX. unfold room_of. rewrite (eq_rooms _ _ (room_remove_equiv hX k' sid)). hsimpl.
+    rewrite pget_rooms_after_remove. unfold room_of. rewrite HX.
+    destruct (pair_eqb_spec k k') as [<-|]; [unfold room_of in Hk; now rewrite Hk|exact Hk]. }
+  destruct (is_virtual (s_kind s)); cbn [fst].
+  - apply Hgen. unfold put_sess. hsimpl. apply rs_del_rooms.
+  - destruct (release_mcu _ sid) as [h3 o3] eqn:Hr. cbn [fst]. apply Hgen.
+    rewrite (fst_eq _ _ _ Hr). rewrite (eq_rooms _ _ (equiv_release_mcu _ sid)). unfold put_sess. hsimpl. apply rs_del_rooms.
+Qed.
+
+Lemma wf_delete_member xr k hh m :
+  WFg (or_room xr k) none1 hh -> room_of hh k = None ->
+  let F := fst (delete_member hh m) in
+  WFg (or_room xr k) none1 F /\ room_of F k = None /\
+  (forall x s1, get_sess F x = Some s1 -> s_room s1 = Some k -> x <> m /\ exists s0, get_sess hh x = Some s0 /\ s_room s0 = Some k).
+Proof.
+  intros W Hk. unfold delete_member. destruct (get_sess hh m) as [s|] eqn:Hs.
+  2:{ cbn [fst]. split; [exact W|]. split; [exact Hk|]. intros x s1 Hx Hr. split; [intros ->; congruence|eauto]. }
+  destruct (leave_room hh m true) as [h2 o1] eqn:Hl. pose proof (fst_eq _ _ _ Hl) as E2.
+  assert (W2 : WFg (or_room xr k) none1 h2) by (rewrite E2; now apply wf_leave_room).
+  assert (Hk2 : room_of h2 k = None) by (rewrite E2; now apply leave_room_keeps_missing).
+  assert (Hc2 : forall x s1, get_sess h2 x = Some s1 -> s_room s1 = Some k -> x <> m /\ exists s0, get_sess hh x = Some s0 /\ s_room s0 = Some k).
+  { intros x s1 Hx Hr. pose proof (leave_room_core hh m true x) as Hq. rewrite <- E2, Hx in Hq. cbn in Hq.
+    destruct (N.eqb_spec x m) as [->|Hne].
+    - exfalso. rewrite Hs in Hq. unfold core, unroomed in Hq. destruct (s_room s) eqn:Hrs; inversion Hq; congruence.
+    - split; [assumption|]. destruct (get_sess hh x) as [s0|]; [|discriminate]. cbn in Hq. apply core_some_eq in Hq as (Hq & _ & _).
+      exists s0. split; [reflexivity|congruence]. }
+  destruct (is_virtual (s_kind s)); [cbn [fst]; auto|].
+  destruct (s_conn s); [|cbn [fst]; auto].
+  destruct (send_session h2 m (SRoom 0)) as [h3 o2] eqn:H3. pose proof (fst_eq _ _ _ H3) as E3. cbn [fst].
+  pose proof (equiv_send_session h2 m (SRoom 0) eq_refl) as Eq. rewrite <- E3 in Eq.
+  split; [eapply wf_equiv; eauto|]. split.
+  - unfold room_of. rewrite (eq_rooms _ _ Eq). exact Hk2.
+  - intros x s1 Hx Hr. destruct (equiv_get _ _ _ _ Eq Hx) as [s2 [Hs2 Hcore]]. apply core_some_eq' in Hcore.
+    apply (Hc2 x s2 Hs2). destruct Hcore as (Hcr & _ & _). congruence.
+Qed.
+
+Lemma fold_sessions_cons h x l f :
+  fold_sessions h (x :: l) f =
+  let '(h1, o1) := f h x in let '(h2, o2) := fold_sessions h1 l f in (h2, o1 ++ o2).
+Proof.
+  unfold fold_sessions. cbn [fold_left]. destruct (f h x) as [h1 o1]. cbn [app].
+  assert (G : forall acc_h acc_o, fold_left (fun acc y => let '(hh, oo) := acc in let '(hh', oo') := f hh y in (hh', oo ++ oo')) l (acc_h, acc_o)
+          = let '(h2, o2) := fold_left (fun acc y => let '(hh, oo) := acc in let '(hh', oo') := f hh y in (hh', oo ++ oo')) l (acc_h, []) in (h2, acc_o ++ o2)).
+  { induction l as [|y l IH]; intros ah ao; cbn [fold_left]; [now rewrite app_nil_r|].
+    destruct (f ah y) as [h' o']. rewrite (IH h' (ao ++ o')), (IH h' ([] ++ o')).
+    destruct (fold_left _ l (h', [])) as [h2 o2]. cbn [app]. now rewrite app_assoc. }
+  rewrite (G h1 o1). reflexivity.
+Qed.
+
+Lemma wf_delete_members xr k members : forall hh,
+  WFg (or_room xr k) none1 hh -> room_of hh k = None ->
+  let F := fst (fold_sessions hh members delete_member) in
+  WFg (or_room xr k) none1 F /\ room_of F k = None /\
+  (forall x s1, get_sess F x = Some s1 -> s_room s1 = Some k ->
+     ~ In x members /\ exists s0, get_sess hh x = Some s0 /\ s_room s0 = Some k).
+Proof.
+  induction members as [|m members IH]; intros hh W Hk.
+  - cbn. split; [exact W|]. split; [exact Hk|]. intros x s1 Hx Hr. split; [tauto|eauto].
+  - rewrite fold_sessions_cons. destruct (delete_member hh m) as [h1 o1] eqn:Hd. pose proof (fst_eq _ _ _ Hd) as E1.
+    destruct (wf_delete_member xr k hh m W Hk) as (W1 & Hk1 & Hc1). rewrite <- E1 in W1, Hk1, Hc1.
+    destruct (fold_sessions h1 members delete_member) as [h2 o2] eqn:Hf. pose proof (fst_eq _ _ _ Hf) as E2.
+    destruct (IH h1 W1 Hk1) as (W2 & Hk2 & Hc2). rewrite <- E2 in W2, Hk2, Hc2. cbn [fst].
+    split; [exact W2|]. split; [exact Hk2|].
+    intros x s2 Hx Hr. destruct (Hc2 x s2 Hx Hr) as [Hnin [s1 [Hs1 Hr1]]].
+    destruct (Hc1 x s1 Hs1 Hr1) as [Hne [s0 [Hs0 Hr0]]]. split; [|eauto].
+    intros [->|Hin]; [now apply Hne|now apply Hnin].
+Qed.
+
+Lemma wf_fold_left_hub {A} (P : hub -> Prop) (f : hub -> A -> hub) l : forall h,
+  P h -> (forall hh x, P hh -> P (f hh x)) -> P (fold_left f l h).
+Proof. induction l as [|x l IH]; intros h Hh Hf; cbn; [exact Hh|]. apply IH; auto. Qed.
+
+Lemma wf_leave_call xr xp h sid : WFg xr xp h -> WFg xr xp (fst (leave_call h sid)).
+Proof. intros W. eapply wf_equiv; [apply equiv_leave_call|exact W]. Qed.
+
+Lemma wf_room_request h k q : WF h -> WF (fst (room_request h k q)).
+Proof.
+  unfold WF. intros W. unfold room_request. destruct (room_of h k) as [r|] eqn:Hr; [|exact W].
+  destruct q as [|users rs|tag|l|l|ic|tag].
+  - (* delete *)
+    match goal with |- context [fold_sessions h ?int ?f] => set (internals := int); set (g := f) end.
+    destruct (fold_sessions h internals g) as [h0 o0] eqn:H0. pose proof (fst_eq _ _ _ H0) as E0.
+    assert (Eq0 : equiv h h0).
+    { rewrite E0. apply (wf_fold_sessions (fun hh => equiv h hh)); [apply equiv_refl|].
+      intros hh x Ehh. eapply equiv_trans; [exact Ehh|]. apply (equiv_send_session hh x SRoomDeleted eq_refl). }
+    assert (W0 : WFg none2 none1 h0) by (eapply wf_equiv; eauto).
+    assert (Hr0 : room_of h0 k = Some r) by (unfold room_of; rewrite (eq_rooms _ _ Eq0); exact Hr).
+    set (h1 := set_rooms h0 (pdel (h_rooms h0) k)).
+    assert (W1 : WFg (or_room none2 k) none1 h1) by (apply wf_del_room; exact W0).
+    assert (Hk1 : room_of h1 k = None) by (unfold h1, room_of; hsimpl; apply pget_pdel_same).
+    destruct (fold_sessions h1 (r_members r) delete_member) as [h9 o9] eqn:H9. pose proof (fst_eq _ _ _ H9) as E9.
+    destruct (wf_delete_members none2 k (r_members r) h1 W1 Hk1) as (W9 & Hk9 & Hc9). rewrite <- E9 in W9, Hk9, Hc9.
+    cbn [fst]. apply (wf_drop_room_exception none2 none1 h9 k W9).
+    intros x s9 Hx Hroom. destruct (Hc9 x s9 Hx Hroom) as [Hnin [s1 [Hs1 Hr1]]].
+    (* in h0 the session named room k, so it was on the member list *)
+    apply Hnin. assert (Hs0 : get_sess h0 x = Some s1) by exact Hs1.
+    destruct (wf_room _ _ h0 W0 x s1 k Hs0 Hr1) as [[]|[r0 [Hr00 Hm0]]].
+    rewrite Hr0 in Hr00. injection Hr00 as <-. exact Hm0.
+  - exact W.
+  - (* update *)
+    destruct (N.eqb (r_props r) (tag + 1)); [exact W|]. cbn [fst]. eapply wf_equiv; [apply equiv_publish|].
+    apply (wf_room_update _ _ h k r); auto. cbn [r_incall]. intros m. apply (wf_incall _ _ h W k r m Hr).
+  - cbn [fst]. eapply wf_equiv; [apply equiv_publish|exact W].
+  - (* incall *)
+    match goal with |- context [fold_left ?f l (h, [])] => set (g := f) end.
+    assert (Hg : WFg none2 none1 (fst (fold_left g l (h, [])))).
+    { assert (G : forall acc, WFg none2 none1 (fst acc) -> WFg none2 none1 (fst (fold_left g l acc))).
+      { induction l as [|u l IH]; intros acc Hacc; cbn [fold_left]; [exact Hacc|]. apply IH.
+        destruct acc as [hh oo]. cbn [fst] in Hacc. unfold g. destruct u as [[i icv] pm].
+        destruct i as [n|sid|kk|n]; try exact Hacc.
+        destruct (get_sess hh sid); [|exact Hacc].
+        destruct (N.testbit icv 0); [cbn [fst]; now apply wf_set_incall|].
+        destruct (leave_call (set_incall hh k sid false) sid) as [h2 o2] eqn:H2. cbn [fst].
+        rewrite (fst_eq _ _ _ H2). apply wf_leave_call. now apply wf_set_incall. }
+      apply G. exact W. }
+    destruct (fold_left g l (h, [])) as [h1 outs]. cbn [fst] in *. eapply wf_equiv; [apply equiv_publish|exact Hg].
+  - (* incall for everybody *)
+    destruct (N.testbit ic 0).
+    + match goal with |- context [filter ?f (filter ?g0 (r_members r))] => set (fresh := filter f (filter g0 (r_members r))); set (joiners := filter g0 (r_members r)) end.
+      destruct fresh; [exact W|].
+      apply wf_fold_sessions; [|intros; now apply wf_send_session].
+      apply wf_fold_left_hub; [exact W|]. intros hh x Hhh. now apply wf_set_incall.
+    + destruct (r_incall r) eqn:Hic; [exact W|].
+      set (h1 := set_rooms h (pset (h_rooms h) k (mkroom (r_members r) [] (r_sessdata r) (r_transient r) (r_props r)))).
+      assert (W1 : WFg none2 none1 h1) by (apply (wf_room_update _ _ h k r); auto; cbn; tauto).
+      match goal with |- context [fold_sessions h1 ?lv leave_call] => destruct (fold_sessions h1 lv leave_call) as [h2 o1] eqn:H2 end.
+      assert (W2 : WFg none2 none1 h2).
+      { rewrite (fst_eq _ _ _ H2). apply wf_fold_sessions; [exact W1|]. intros. now apply wf_leave_call. }
+      match goal with |- context [fold_sessions h2 ?lv ?f] => destruct (fold_sessions h2 lv f) as [h3 o2] eqn:H3 end.
+      cbn [fst]. rewrite (fst_eq _ _ _ H3). apply wf_fold_sessions; [exact W2|]. intros. now apply wf_send_session.
+  - cbn [fst]. eapply wf_equiv; [apply equiv_publish|exact W].
 Qed.
